@@ -36,6 +36,18 @@ hint["h"] = ("Assume the repository is guarded by a strong verification framewor
              "comparison are unlikely to hit (for example: a value reachable only after many steps, a counter that must wrap, three events in a "
              "particular order, a state that both cores would get wrong in the same way, an input class the framework would consider out of "
              "scope but the property does not).")
+hint["i"] = ("Look at ALL the files the property is anchored in (listed below) and prefer a SECONDARY one: a wrapper, cache, alternative "
+             "entry point, asynchronous / batched twin of a synchronous routine, device profile, bridge or convenience layer that sits next to "
+             "the main implementation and is expected to behave identically (for example a cached decoder next to the decoder, a stepper next to "
+             "the emulator, an async evaluator next to the synchronous one, a keyboard handler next to the matrix, a display pipeline next to the "
+             "controller, a second device model next to the first). The main implementation should stay correct; the secondary path should "
+             "deviate only for a specific input, state or order of calls. Avoid the most obvious arithmetic or table site.")
+hint["j"] = ("Prefer a COMPENSATED change: one that is applied consistently on BOTH sides of a comparison that a test harness would naturally "
+             "make - both the Python core and the Rust core, both the encoder and the decoder, both the renderer and the assembler's parser, "
+             "both snapshot save and snapshot load, both the producer and the consumer of a queue - so that the two sides still agree with each "
+             "other and round trips still close, while the behaviour no longer matches what the property and the repository documentation "
+             "(README instruction tables, hardware description) require. The change should need a specific operand value, state or sequence to "
+             "show. Avoid the most obvious arithmetic or table site.")
 hint = hint[variant]
 print(f"""You are helping test a verification framework for the repository mblsha/binja-esr (a Binary Ninja plugin + emulator for the Sharp SC62015 CPU: decoder/encoder, LLIL lifter, assembler, PC-E500 machine emulator in Python under pce500/, and a Rust core under sc62015/core).
 
@@ -44,6 +56,7 @@ Your job: produce ONE realistic, subtle code change ("seeded defect") to the rep
 PROPERTY {p['id']} - {p['title']}
 Statement: {p['statement']}
 Quantified over: {p['quantifier']['text']}
+Anchored in: {', '.join(p['anchors']['files'])}
 
 Rules:
 - Work ONLY in your own scratch git worktree. Create it with:  git -C /repo worktree add /tmp/wt-{pid}{variant} HEAD   (work inside /tmp/wt-{pid}{variant}). NEVER edit anything under /repo itself and NEVER read or write anything under /verif.
